@@ -64,6 +64,14 @@ func (m *monC16) TaskEnd(s *Sim, t *Task) {
 	if !v.ERSRead && len(v.SpecWrites) == 1 {
 		def = v.SpecWrites[0]
 	}
+	if !v.ERSRead && len(v.SpecWrites) == 0 {
+		// the same write spelled as a patch
+		for _, c := range v.Others {
+			if c.Kind == KEDS && c.Verb == "patch" {
+				def = c
+			}
+		}
+	}
 	if prev, ok := m.lastDefaulted[key]; ok {
 		cur, _ := json.Marshal(v.EDS.Spec)
 		if def != nil && string(cur) == string(prev) {
@@ -74,7 +82,11 @@ func (m *monC16) TaskEnd(s *Sim, t *Task) {
 	if def != nil && def.Applied() && def.Pre != nil {
 		s.Stats.NonVacuous["C16.defaulting"]++
 		out := &edsv1.ExtendedDaemonSet{}
-		b, _ := json.Marshal(def.Obj)
+		written := def.Obj
+		if written == nil && def.Out != nil {
+			written = toMap(def.Out)
+		}
+		b, _ := json.Marshal(written)
 		_ = json.Unmarshal(b, out)
 		if !edsv1.IsDefaultedExtendedDaemonSet(out) {
 			s.Violate("C16", "not-recognised", "", "%s: the defaulted object is not recognised as defaulted", t.Label())
@@ -84,7 +96,7 @@ func (m *monC16) TaskEnd(s *Sim, t *Task) {
 			s.Violate("C16", "not-idempotent", "", "%s: defaulting the defaulted object changes it", t.Label())
 		}
 		var diffs []string
-		jsonDiff("", specOf(def.Pre), def.Obj["spec"], &diffs)
+		jsonDiff("", specOf(def.Pre), written["spec"], &diffs)
 		pre := specOf(def.Pre)
 		for _, d := range diffs {
 			if d == "/template/metadata/name" {
